@@ -104,6 +104,8 @@ type c05World struct {
 	dimsSince map[string]map[corev1.ResourceName]bool
 	uidSeq    int
 	indexed   bool
+	// the selector index configuration of the case
+	idxPrefixes, idxKeys []string
 }
 
 func (w *c05World) newUID(prefix string) types.UID {
@@ -117,7 +119,35 @@ const (
 	c05IdxKey    = "zone"
 )
 
-var c05RsvLabelPool = []map[string]string{nil, {"idx-a": "1"}, {"idx-b": "2", "zone": "z1"}, {"zone": "z2"}, {"other": "x"}, {"idx-a": "2", "zone": "z1", "other": "y"}}
+var c05RsvLabelPool = []map[string]string{nil, {"idx-a": "1"}, {"idx-b": "2", "zone": "z1"}, {"zone": "z2"}, {"other": "x"}, {"idx-a": "2", "zone": "z1", "other": "y"},
+	{"idx-a": ""}, {"idx-a1": "1", "zone": ""}, {"zo": "z1", "idx-": "1"}}
+
+// c05IndexConfigs: selector index configurations (the first one is used in half of the indexed cases):
+// overlapping prefixes, blank / duplicate / padded entries (documented as ignored / trimmed), keys only,
+// prefixes only, a key that is also matched by a prefix.
+var c05IndexConfigs = []struct{ prefixes, keys []string }{
+	{[]string{c05IdxPrefix}, []string{c05IdxKey}},
+	{[]string{c05IdxPrefix, "idx-a"}, []string{c05IdxKey}},
+	{[]string{" idx- ", "idx-", ""}, []string{" zone", "other", ""}},
+	{nil, []string{c05IdxKey, "idx-a"}},
+	{[]string{c05IdxPrefix, "zo"}, nil},
+	{[]string{c05IdxPrefix}, []string{"idx-a"}},
+}
+
+// covered: the configuration makes the index cover label key k (exact key, or a key prefix).
+func (w *c05World) covered(k string) bool {
+	for _, x := range w.idxKeys {
+		if x = strings.TrimSpace(x); x != "" && x == k {
+			return true
+		}
+	}
+	for _, x := range w.idxPrefixes {
+		if x = strings.TrimSpace(x); x != "" && strings.HasPrefix(k, x) {
+			return true
+		}
+	}
+	return false
+}
 
 func (w *c05World) genReservation(name string) *schedulingv1alpha1.Reservation {
 	r := w.r
@@ -127,7 +157,7 @@ func (w *c05World) genReservation(name string) *schedulingv1alpha1.Reservation {
 	}
 	res := &schedulingv1alpha1.Reservation{
 		ObjectMeta: metav1.ObjectMeta{Name: name, UID: w.newUID("r"), Annotations: map[string]string{}, Labels: map[string]string{}},
-		Spec: schedulingv1alpha1.ReservationSpec{Template: c05Template(alloc), TTL: &metav1.Duration{},
+		Spec: schedulingv1alpha1.ReservationSpec{Template: c05TemplateR(r, alloc), TTL: &metav1.Duration{},
 			Owners: []schedulingv1alpha1.ReservationOwner{{LabelSelector: &metav1.LabelSelector{MatchLabels: map[string]string{"app": "a"}}}}},
 	}
 	for k, v := range kit.Pick(r, c05RsvLabelPool) {
@@ -156,6 +186,10 @@ func (w *c05World) genReservation(name string) *schedulingv1alpha1.Reservation {
 
 func c05RsvAvailable(res *schedulingv1alpha1.Reservation) bool {
 	return res != nil && res.Status.NodeName != "" && res.Status.Phase == schedulingv1alpha1.ReservationAvailable
+}
+
+func c05RsvWaiting(res *schedulingv1alpha1.Reservation) bool {
+	return res != nil && res.Status.NodeName != "" && res.Status.Phase == schedulingv1alpha1.ReservationWaiting
 }
 
 func c05RsvTerminated(res *schedulingv1alpha1.Reservation) bool {
@@ -478,40 +512,31 @@ func (w *c05World) check(where string) {
 		if issues := cache.checkReservationSelectorIndexConsistency(); len(issues) > 0 {
 			c.Count("selector_index_self_audit_issues", len(issues))
 		}
-		// completeness: the index is configured (by this harness) with the key prefix "idx-" and the exact key
-		// "zone"; every live reservation placed on a node must be listed under its CURRENT node for each of
-		// its current labels that the configuration covers, and under no other node
+		// completeness, through the read API: for every label of a live reservation placed on a node whose key
+		// the case's configuration covers (exact key or key prefix), FilterByReservationSelector must take the
+		// index path and offer the reservation's CURRENT node
 		for uid, ri := range cache.reservationInfos {
 			n := ri.GetNodeName()
 			if n == "" {
 				continue
 			}
 			for k, v := range ri.GetObject().GetLabels() {
-				covered := false
-				if strings.HasPrefix(k, c05IdxPrefix) {
-					covered = true
-					if !cache.nodesByPrefix[c05IdxPrefix][n].Has(uid) {
-						c.Fail("C05/index/selector-missing", "%s: live reservation %s on node %s carries label %s=%s but the selector index (prefix %q) does not list it under that node", where, uid, n, k, v, c05IdxPrefix)
+				nodes, hit := cache.FilterByReservationSelector(map[string]string{k: v})
+				if !w.covered(k) {
+					if hit {
+						c.Count("selector_index_hit_for_uncovered_key", 1)
+					}
+					continue
+				}
+				c.Count("selector_index_completeness_checks", 1)
+				found := false
+				for _, x := range nodes {
+					if x == n {
+						found = true
 					}
 				}
-				if k == c05IdxKey {
-					covered = true
-					if !cache.nodesByExactKV[k][v][n].Has(uid) {
-						c.Fail("C05/index/selector-missing", "%s: live reservation %s on node %s carries label %s=%s but the selector index (exact key) does not list it under that node", where, uid, n, k, v)
-					}
-				}
-				if covered {
-					c.Count("selector_index_completeness_checks", 1)
-					nodes, hit := cache.FilterByReservationSelector(map[string]string{k: v})
-					found := false
-					for _, x := range nodes {
-						if x == n {
-							found = true
-						}
-					}
-					if !hit || !found {
-						c.Fail("C05/index/selector-missing", "%s: FilterByReservationSelector({%s: %s}) = %v (hit=%v) does not offer node %s on which live reservation %s carries that label", where, k, v, nodes, hit, n, uid)
-					}
+				if !hit || !found {
+					c.Fail("C05/index/selector-missing", "%s: FilterByReservationSelector({%s: %q}) = %v (hit=%v) does not offer node %s on which live reservation %s carries that label (index prefixes %q keys %q)", where, k, v, nodes, hit, n, uid, w.idxPrefixes, w.idxKeys)
 				}
 			}
 		}
